@@ -41,11 +41,12 @@ def seq_files(E, s, ref):
 
 
 def tail_slice(stmts):
-    """mechanical extraction: the last top-level `for` whose iterable is the name `files`
-    and everything after it"""
+    """mechanical extraction: the first top-level `for` whose iterable is the name `files`
+    (the per-file pipeline loop; the --use-gitignore filter is nested in an `if`) and everything
+    after it"""
     k = None
     for i, st in enumerate(stmts):
-        if isinstance(st, ast.For) and isinstance(st.iter, ast.Name) and st.iter.id == "files":
+        if isinstance(st, ast.For) and isinstance(st.iter, ast.Name) and st.iter.id == "files" and k is None:
             k = i
     if k is None:
         raise SpecError("main(): no `for ... in files` loop found")
